@@ -234,7 +234,11 @@ static int do_batch(int argc, char **argv) {
                 fflush(stdout);
             } else if (rr.outcome.kind == Outcome::DISCARD) {
                 discards++;
-                std::string k = rr.outcome.msg.substr(0, 60);
+                // kind of discard: the message without the position of the node it talks about ("node /1/0/3: ...") and without values
+                std::string k = rr.outcome.msg;
+                { size_t np = k.find("node "); if (np != std::string::npos) { size_t colon = k.find(": ", np); if (colon != std::string::npos) k.erase(np, colon + 2 - np); } }
+                { size_t par = k.find(" ("); if (par != std::string::npos) k.erase(par); }
+                k = k.substr(0, 110);
                 discard_kinds[k]++;
                 if (discards <= 10) { printf("D %lld %lld step %d\t%s\n", (long long)i, (long long)sub, rr.outcome.step, oneline(rr.outcome.msg).substr(0, 1500).c_str()); fflush(stdout); }
                 if (sub == -1) subcount = 0;  // a scenario whose fault-free run already deviates is not enumerated
